@@ -15,7 +15,7 @@ CONSTANTS
   Quirks = {}
   DiagLine = 0
 INVARIANTS C05_Backed C05_Bounds NoNegBal C17_TraceOnlyForVesting
-PROPERTIES Rejected Conserved C06_Lock C06_WithdrawnOnlyAfter C06_WithdrawExact C18_WithdrawEvents C07_Exact C08_Send C08_Create C09_NoOverwrite C17_Lineage
+PROPERTIES Rejected Conserved C06_Lock C06_WithdrawnOnlyAfter C06_WithdrawExact C18_WithdrawEvents C07_Exact C08_Send C08_Create C09_NoOverwrite C17_Lineage C13_Denom
 CONSTRAINT TraceConstraint
 POSTCONDITION TraceAccepted
 CHECK_DEADLOCK FALSE
